@@ -321,8 +321,20 @@ def check_construction(data: dict, lab: Labels) -> None:
     if split and split < len(fields):
         # a two-level hierarchy: the first `split` fields live in the base class, which is built
         # (under the switch) before the subclass is used for the first time
-        classes = [{"name": "B0", "base": None, "fields": fields[:split]},
-                   {"name": "C0", "base": "B0", "fields": fields[split:]}]
+        base_fields = list(fields[:split])
+        own_fields = list(fields[split:])
+        if data.get("override") and not fields[0].get("noninit"):
+            # the subclass declares the base's first field again with another annotation: its own annotation
+            # is the one that counts (the value is drawn for it)
+            f0 = fields[0]
+            other = {"k": "scalar", "n": "str"} if CF.strip_newtype(f0["ann"]) != {"k": "scalar", "n": "str"} else {"k": "scalar", "n": "int"}
+            redeclared = {"name": f0["name"], "ann": other}
+            values[f0["name"]] = gen_conforming(other, d) if data["override"] % 2 else gen_conforming(f0["ann"], d)
+            fields[0] = redeclared
+            own_fields.append(redeclared)
+            lab.tag("subclass-redeclares-a-field-with-another-annotation")
+        classes = [{"name": "B0", "base": None, "fields": base_fields},
+                   {"name": "C0", "base": "B0", "fields": own_fields}]
         lab.tag("hierarchy-base-first")
     else:
         split = 0
@@ -465,6 +477,9 @@ def st_construction(ctx: Ctx):
         {"k": "union", "of": [sc("bool"), sc("str")], "pipe": True},
         {"k": "tuple_var", "of": {"k": "union", "of": [sc("int"), sc("bool")], "pipe": True}},
         {"k": "union", "of": [sc("float"), sc("int"), {"k": "none"}], "pipe": True},
+        {"k": "opt", "of": sc("float")},  # (an int is acceptable for the float member)
+        {"k": "union", "of": [sc("float"), sc("str")], "pipe": True},
+        {"k": "tuple_var", "of": {"k": "opt", "of": sc("float")}},
         {"k": "tuple_fix", "of": [sc("int"), sc("str")]},
         {"k": "tuple_fix", "of": [sc("int"), sc("int")]},
         {"k": "opt", "of": {"k": "tuple_fix", "of": [sc("str"), sc("str"), sc("bool")]}},
@@ -475,7 +490,7 @@ def st_construction(ctx: Ctx):
                                  "noninit": st.sampled_from([False, False, False, True])})
     return st.fixed_dictionaries({"fields": st.lists(fld, min_size=1, max_size=5), "seed": st.integers(0, 2**31),
                                   "postponed": st.booleans(), "split": st.sampled_from([0, 0, 1, 2, 3]),
-                                  "origin": st.sampled_from([0, 0, 0, 1, 2, 3])})
+                                  "origin": st.sampled_from([0, 0, 0, 1, 2, 3]), "override": st.sampled_from([0, 0, 1, 2])})
 
 
 _STRANGER: list = []
